@@ -685,7 +685,23 @@ def upgrade_exit_state(A, fl, rule):
     for p in [p for p in A.paths(en2, up, sock) if p.outcome != 'cut']:
         v = PV(p)
         ctor = v.calls("self.server._async['websocket'](___)")
+        gn = ("self.server._async['websocket'] is None", True) in v.guard_atoms()
+        if gn:
+            # no WebSocket support in this async mode: refuse, touch nothing
+            A.check(not ctor and p.outcome == 'return' and
+                    txt(p.value) == 'self.server._bad_request()' and not v.writes(),
+                    rule + '.no-driver', '%s: without a WebSocket driver the upgrade request is '
+                    'refused with 400 and nothing else happens' % fl['name'], A.site(up),
+                    key='%s-upgrade-no-driver' % fl['name'], detail=v.describe(),
+                    behaviour='an async mode without WebSocket support fails the request with an '
+                              'error (or every upgrade is refused although a driver exists)')
         if ctor:
+            A.check(("self.server._async['websocket'] is None", False) in v.guard_atoms(),
+                    rule + '.no-driver', '%s: the driver WebSocket is created only if the async '
+                    'mode has one' % fl['name'], A.site(up, v.node(ctor[0][0])),
+                    key='%s-upgrade-driver-guard' % fl['name'], detail=v.describe(),
+                    behaviour='an async mode without WebSocket support fails the request with an '
+                              'error (or every upgrade is refused although a driver exists)')
             A.check(any(i < ctor[0][0] for i in v.guards('self.upgraded', False)),
                     rule + '.already-upgraded', '%s: an upgraded session refuses a further '
                     'upgrade before a driver WebSocket is created' % fl['name'],
